@@ -182,6 +182,16 @@ func ZZ_C04_vars() {
 		item = ast.NewListNode(ast.NewListNode(av, "...[0]"), ast.NewBinaryNode("y", 3), "...[1]", ast.NewListNode(ast.NewFloatNode(4, "vf"), "...[2]"))
 	case 4:
 		item = ast.NewListNode(ast.NewListNode(ast.NewListNode("deep[2]", "...[0]")), "...[1]", av)
+	case 5: // names generated by an expansion: lot[0], lot[1], w[0][1] ...; the remaining ellipsis is renumbered
+		t := ast.NewListNode(ast.NewListNode(ast.NewUintNode(2, "lot"), ast.NewListNode("w", "...[0]"), "...[1]"), av, "...[2]")
+		item = t.FillVariables(map[string]interface{}{"...[1]": 1 + rt.Choice("n1", 2), "...[0]": rt.Choice("n0", 2)})
+	case 6: // ASCII length bounds around 2^31, 2^32 and at the largest int
+		big := []int{2147483647, 2147483648, 4294967295, 4294967296, 99999999999, 9223372036854775807}[rt.Choice("big", 6)]
+		if rt.Choice("side", 2) == 0 {
+			item = ast.NewASCIINodeVariable("s", 0, big)
+		} else {
+			item = ast.NewListNode(ast.NewASCIINodeVariable("s", big, -1), ast.NewASCIINodeVariable("u", big, big))
+		}
 	}
 	wb := rt.Choice("wbit", 3)
 	m := ast.NewDataMessage("Tmpl", 3, 1, wb, "H<->E", item)
